@@ -174,7 +174,8 @@ def core_cfg(draw, want="conv"):
             p["data_width"] = draw(st.sampled_from(choices))
             p["reverse"] = draw(st.booleans())
         if want in ("cdc", "both") and (i == 0 or draw(st.booleans())):
-            name = "user%d" % i
+            # any name other than "sys" is another clock domain, whatever it looks like
+            name = draw(st.sampled_from(["user%d", "user%d", "sys%dx", "sys_ps%d", "system%d", "eth_rx%d"])) % (i + 2)
             per = 2 * draw(st.integers(2, 20))
             clocks[name] = [per, draw(st.integers(0, per - 1))]
             p["clock_domain"] = name
@@ -194,13 +195,16 @@ def core_stim(draw, cfg, max_ops=20):
     ncolw = 1 << (cfg["colbits"] - align)
     ports = []
     waits = []
+    nrows = 1 << cfg["rowbits"]
+    # the ports' regions lie at the bottom, at the very top or in the middle of the row range (every address bit of a port is used)
+    rowbase = draw(st.sampled_from([0, 0, nrows - 2 * len(cfg["ports"]), (nrows >> 1) - 2]))
     for pi, pc in enumerate(cfg["ports"]):
         udw = pc.get("data_width") or W
         lay = Layout(dict(user_dw=udw, ctrl_dw=W))
         r = lay.ratio
         full = (1 << (udw // 8)) - 1
         # this port's region: rows 2*pi, 2*pi+1 of every bank
-        locs = [(0, draw(st.integers(0, nb - 1)), 2 * pi + draw(st.integers(0, 1)), draw(st.sampled_from([0, 1, 2, ncolw - 1]))) for _ in range(draw(st.integers(1, 4)))]
+        locs = [(0, draw(st.integers(0, nb - 1)), rowbase + 2 * pi + draw(st.integers(0, 1)), draw(st.sampled_from([0, 1, 2, ncolw - 1]))) for _ in range(draw(st.integers(1, 4)))]
         wait = draw(st.integers(0, 3)) == 0
         ops = []
         for _ in range(draw(st.integers(1, max_ops))):
